@@ -55,12 +55,13 @@ PROPS = {
         n={'quick': 3000, 'thorough': 60000},
         translators=[['python3', 'translators/seqlock2coq.py']],
         theorems=['state_forward_only', 'stopped_never_runs', 'shutdown_at_most_once', 'await_stop_returns',
-                  'await_stop_result', 'background_step_facts', 'service_trace_checker_sound'],
+                  'await_stop_result', 'every_await_returns', 'background_step_facts', 'service_trace_checker_sound'],
         classify=_c41_classes,
         rule='real ServiceRunner on a current-thread tokio runtime with a scripted task whose into_task/run/shutdown '
              'calls wait for a permit: every sequence of <= 4 (thorough 6) ops over {start, stop, permit, await_stop} x '
              'every (into_task, first run, shutdown) outcome; the unit-test life cycles with stop twice / start after '
-             'stop / stop before start for every outcome; random sequences of 3..14 (24) ops with random scripts. '
+             'stop / stop before start for every outcome; StateWatcher::while_started / wait_stopping_or_stopped '
+             'spawned while NotStarted / Starting / Started / Stopping for every outcome; random sequences of 3..14 (24) ops with random scripts. '
              'non-trivial = distinct input with a non-empty observation trace',
         assumptions=['PARTIAL: tokio watch / task scheduling are modelled as atomic steps on (cell, version); '
                      'the user task is a script of outcomes behind a permit gate',
